@@ -102,6 +102,7 @@ type faithful = { mutable st : pdb option; step : pdb -> op -> pdb option;
 let faithful_of (kind : string) : faithful option =
   match kind with
   | "plain" -> Some { st = Some pdb_init; step = plain_step; qry = plain_query }
+  | "batched" -> Some { st = Some pdb_init; step = batched_step; qry = batched_query }
   | _ -> None
 
 let run_case (id : string) (kind : string) (body : string) =
